@@ -324,7 +324,7 @@ namespace TrRouting
       if (reverseAccessJourneysSteps.at(resultingNode.uid).getFinalEnterConnection().has_value()) {
         //TODO Should check taht MinWaiting is not -1 or use OrDefault(0)
         //TODO Could move this operation into a function of class Connection
-        int departureTimeD = reverseAccessJourneysSteps.at(resultingNode.uid).getFinalEnterConnection().value().get().getDepartureTime() - reverseAccessJourneysSteps.at(resultingNode.uid).getFinalEnterConnection().value().get().getMinWaitingTime();
+        int departureTimeD = reverseAccessJourneysSteps.at(resultingNode.uid).getFinalEnterConnection().value().get().getDepartureTime() - reverseAccessJourneysSteps.at(resultingNode.uid).getFinalEnterConnection().value().get().getMinWaitingTimeOrDefault(parameters.getMinWaitingTimeSeconds());
         if (arrivalTimeSeconds - departureTimeD <=  parameters.getMaxTotalTravelTimeSeconds()) {
           reachableNodesCount++;
 
